@@ -363,6 +363,9 @@ class Histogram1D(ObjectWithBinning, HistogramBase):
         Note: If a gap in unconsecutive bins is matched, underflow & overflow are not valid anymore.
         Note: Name was selected because of the eponymous method in ROOT
         """
+        if np.isscalar(value) and np.isnan(value):
+            # Same as in construction and fill_n: NaN's are skipped
+            return None
         self._coerce_dtype(type(weight))
         if self._binning.is_adaptive():
             bin_map = self._binning.force_bin_existence(value)
